@@ -8,7 +8,7 @@ CONSTANTS
   Small = FALSE
   Avoid = TRUE
   SimK = 1
-  Acts = {"xslice", "slice", "ldel", "lins", "lset", "inplace"}
+  Acts = {"xslice", "lins", "ldel"}
 CONSTRAINT LevelBound
 INVARIANT Conforms
 INVARIANT AltsConform
